@@ -29,7 +29,7 @@ fn main() {
             out.comment(&format!("property C{:02} tier {} seed {} debug {}", prop, tier, seed, DBG));
             match prop {
                 1 => { hist::gen_c01(&mut out, prop, tier, &mut rng); hist::gen_zst(&mut out, 1, tier, &mut rng); hist::gen_large(&mut out, 1, tier, &mut rng); hist::gen_fuses(&mut out, 1, tier); hist::gen_bombs(&mut out, 1, tier); hist::gen_big(&mut out, 1, tier, &mut rng) }
-                5 => { hist::gen_c01(&mut out, prop, tier, &mut rng); hist::gen_zst(&mut out, 5, tier, &mut rng); hist::gen_large(&mut out, 5, tier, &mut rng); hist::gen_fuses(&mut out, 5, tier); hist::gen_bombs(&mut out, 5, tier) }
+                5 => { hist::gen_c01(&mut out, prop, tier, &mut rng); hist::gen_zst(&mut out, 5, tier, &mut rng); hist::gen_large(&mut out, 5, tier, &mut rng); hist::gen_fuses(&mut out, 5, tier); hist::gen_bombs(&mut out, 5, tier); ops::gen_c11_clone(&mut out, 5, tier); conv::gen_c11_from_view(&mut out, 5, tier) }
                 6 => { hist::gen_c06(&mut out, tier, &mut rng); hist::gen_zst(&mut out, 6, tier, &mut rng); hist::gen_large(&mut out, 6, tier, &mut rng); hist::gen_big(&mut out, 6, tier, &mut rng) }
                 7 => { hist::gen_c07(&mut out, tier, &mut rng); hist::gen_zst(&mut out, 7, tier, &mut rng); hist::gen_large(&mut out, 7, tier, &mut rng); hist::gen_big(&mut out, 7, tier, &mut rng) }
                 2 => geom::gen_c02(&mut out, tier, &mut rng),
@@ -43,7 +43,7 @@ fn main() {
                 19 => serde_fam::gen_c19(&mut out, tier, &mut rng),
                 20 => { conv::gen_c20(&mut out, tier, &mut rng); hist::gen_clone_from(&mut out, 20, tier) }
                 8 | 9 | 10 => { iters::generate(&mut out, prop, tier, &mut rng); bigiter::generate(&mut out, prop, tier, &mut rng) }
-                11 => { hist::gen_c11_iter(&mut out, tier, &mut rng); hist::gen_zst(&mut out, 11, tier, &mut rng); ops::gen_c11_sort(&mut out, tier, &mut rng); hist::gen_bombs(&mut out, 11, tier) }
+                11 => { hist::gen_c11_iter(&mut out, tier, &mut rng); hist::gen_zst(&mut out, 11, tier, &mut rng); ops::gen_c11_sort(&mut out, tier, &mut rng); ops::gen_c11_clone(&mut out, 11, tier); conv::gen_c11_from_view(&mut out, 11, tier); hist::gen_bombs(&mut out, 11, tier) }
                 12 => { hist::gen_c12_drain(&mut out, tier, &mut rng); hist::gen_zst(&mut out, 12, tier, &mut rng); hist::gen_large(&mut out, 12, tier, &mut rng); hist::gen_big(&mut out, 12, tier, &mut rng) }
                 _ => panic!("no generator for property {prop}"),
             }
@@ -63,7 +63,7 @@ fn main() {
                     1 | 2 => hist::replay(&mut out, hd[0], hd[1], &inp),
                     3 => iters::replay(&mut out, hd[0], &inp),
                     4 | 5 => geom::replay(&mut out, hd[0], hd[1], &inp),
-                    9 => conv::replay(&mut out, &inp),
+                    9 => conv::replay(&mut out, hd[0], &inp),
                     10 => bigiter::replay(&mut out, hd[0], &inp),
                     6 => ops::replay(&mut out, hd[0], &inp),
                     7 => serde_fam::replay_doc(&mut out, &inp),
